@@ -127,7 +127,7 @@ type obs struct {
 	Done           bool
 }
 
-func coqOutcome(o obs, rsaKx bool) string {
+func coqOutcome(o obs, rsaWrongKey bool) string {
 	switch {
 	case o.CKind == "ok" && o.SKind == "ok" && o.Done:
 		return "Done"
@@ -135,10 +135,11 @@ func coqOutcome(o obs, rsaKx bool) string {
 		return vh.App("Abort", vh.NI(nz(o.SAlert)), "true", "false")
 	case o.CKind == "remote":
 		a := o.CAlert
-		if rsaKx && a == 40 {
+		if rsaWrongKey && (a == 40 || a == 51) {
 			// RSA key transport to a server holding another key: the server fails with
-			// handshake_failure when the ciphertext is not below its modulus and otherwise
-			// derives other keys and fails with bad_record_mac; both are one class
+			// handshake_failure on the ClientKeyExchange when the ciphertext is not below its
+			// modulus; otherwise it derives other keys and fails on the client's CertificateVerify
+			// (if that is bad too) or with bad_record_mac on the Finished record: one class
 			a = 20
 		}
 		return vh.App("Abort", vh.NI(nz(a)), "false", "false")
@@ -241,7 +242,7 @@ func runCell(c *vh.Ctx, cell Cell) {
 	sf := vh.App("mkServerFacts", vh.Bool(chain), vh.Bool(timeOK), vh.Bool(nameOK), vh.Bool(keyMatches), vh.Bool(sigIntact))
 	cf := vh.App("mkClientFacts", vh.Bool(cPresents), vh.Bool(cChain), vh.Bool(cKeyMatches), vh.Bool(cSigIntact))
 	nk := fmt.Sprintf("%x|%s|%s|%v|%s|%d|%s|%s", cell.Vers, cell.Kx, cell.Key, cell.Skip, cell.Server, cell.Mode, cell.Client, cell.CKey)
-	c.Case("case", vh.Pair(vh.Bool(cell.Skip), kxCoq(cell.Kx), sf, vh.NI(cell.Mode), cf, coqOutcome(o, cell.Kx == "rsa")), cell, nk)
+	c.Case("case", vh.Pair(vh.Bool(cell.Skip), kxCoq(cell.Kx), sf, vh.NI(cell.Mode), cf, coqOutcome(o, cell.Kx == "rsa" && cell.Server == "wrongkey")), cell, nk)
 	c.Stat("server."+cell.Server, 1)
 	// ---- direct oracle: the property on the implementation alone
 	clientDone, serverDone := r.ClientErr == nil, r.ServerErr == nil
